@@ -1921,6 +1921,9 @@ def check_c17(pid, replay=None):
         sd = vlib.seed() * 1000 + i
         scen.append(dict(STRESS_BASE, id="once-%d" % sd, kind="once", smfs=rng.randint(2, 4), prods=rng.randint(2, 8), runms=300, seed=sd))
         scen.append(dict(STRESS_BASE, id="stop-%d" % sd, kind="stop", smfs=rng.randint(2, 4), prods=rng.randint(2, 8), runms=rng.randint(5, 250), stop=True, seed=sd))
+    # Stop at once / a few hundred microseconds after Start: nothing is in flight except the start-up itself
+    for j, us in enumerate([0, 0, 50, 300, 2000][: 5 if thorough else 3]):
+        scen.append(dict(STRESS_BASE, id="stopearly-%d" % j, kind="stopearly", runms=us, stop=True, seed=j))
     results = run_stress_pool(binary, scen, kbase(pid), 5)
     nviol = 0
     seen = set()
